@@ -97,6 +97,8 @@ package container
 //@   ensures [C09] capped: result1 == nil ==> 1 <= len(result0) && len(result0) <= 33554432
 //@   ensures [C18] eof: result1 == nil ==> result0 != nil
 //@   ensures [C18] nofault: result1 == nil ==> failed(box(r)) == old(failed(box(r)))
+//@   // a clean io.EOF is reported only at a section boundary: nothing of a section has been consumed
+//@   ensures [C18] cleaneof: result1 == io.EOF ==> delivered(box(r)) == old(delivered(box(r)))
 //@   assigns r, rdState(box(r)), delivered(box(r)), failed(box(r))
 //@ func ldWrite
 //@   requires w != nil
@@ -110,4 +112,5 @@ package container
 //@   requires r != nil
 //@   ensures [C17] integrity: result1 == nil ==> (exists p cid.Prefix :: result0.c == cidOfData(p, bytes(result0.data)))
 //@   ensures [C18] nofault: result1 == nil ==> failed(box(r)) == old(failed(box(r)))
+//@   ensures [C18] cleaneof: result1 == io.EOF ==> delivered(box(r)) == old(delivered(box(r)))
 //@   assigns r, rdState(box(r)), delivered(box(r)), failed(box(r))
